@@ -398,7 +398,7 @@ impl Property for C13 {
         vec![("single-node", 3), ("cluster", 1)]
     }
     fn budget(&self) -> (u64, u64) {
-        (10_000, 400_000)
+        (15_000, 500_000)
     }
     fn rule(&self) -> &'static str {
         "sequences of 2-10 of {plain write, versioned write at the current version, versioned write with a stale version, arbiter connect, arbiter disconnect, arbiter resolves its oldest or its newest notice (with the conflicting value or another one)} on 1-2 keys of a database created with the arbiter strategy, always ending with an arbiter that answers every notice; single node (direct sessions) and 2-3 node clusters with the arbiter and the writer attached to the primary or a secondary. Conflict-queue model per key: a conflicting write is answered with an error, leaves the key unchanged, is refused outright only while no arbiter ever registered, otherwise is recorded under $conflicts_ and delivered once to the registered arbiter / re-delivered to the next one; after all resolutions the key holds the last resolution, is writable, nothing is pending, a new arbiter gets nothing, replicas agree. Non-trivial: at least one conflict was queued and resolved. distinct = distinct (program, task-switch sequence)."
